@@ -2051,3 +2051,31 @@ func builderWiring(c *an.Ctx, rule string, selectEntries map[string][]string) {
 		checkFieldMap(c, rule, "cmd.(*builder)."+k[:i], k[i+1:], want)
 	}
 }
+
+// dnssvcWiring runs the name-agreement rule over the top-level wiring functions
+// of package dnssvc (NewHandlers, NewListener, newListeners, wrapPreUpstreamMw,
+// newDeviceFinder, newHandlersForServers): a component's configuration field is
+// filled from the handlers-configuration field of the same name, or the pair is
+// one of the renamings confirmed here.  fields selects the pairs that concern
+// the calling property.
+func dnssvcWiring(c *an.Ctx, rule string, fields func(dst, src string) bool, min int) {
+	sharedCodecNames(c, rule, func(fn *ssa.Function) bool {
+		return strings.HasPrefix(an.FnKey(fn), "dnssvc.")
+	}, fields, map[string]string{
+		"dnssvc/internal/preservice.Config.Checker <- dnssvc.HandlersConfig.DNSCheck":         "the DNS checker",
+		"dnssvc/internal/ratelimitmw.Config.Limiter <- dnssvc.HandlersConfig.RateLimit":       "the global rate limiter",
+		"dnssvc/internal/preupstream.Config.DB <- dnssvc.HandlersConfig.DNSDB":                "the DNS database",
+		"dnsserver/cache.MiddlewareConfig.Count <- dnssvc.CacheConfig.NoECSCount":             "the simple cache has one size, the non-ECS one",
+		"dnsserver/cache.MiddlewareConfig.OverrideTTL <- dnssvc.CacheConfig.OverrideCacheTTL": "abbreviated",
+		"ecscache.MiddlewareConfig.OverrideTTL <- dnssvc.CacheConfig.OverrideCacheTTL":        "abbreviated",
+		"dnsserver.ConfigBase.Disposer <- dnssvc.Config.Cloner":                               "the cloner is the server's message disposer",
+		"dnsserver.ConfigDNS.MaxUDPRespSize <- agd.UDPConfig.MaxRespSize":                     "per-protocol structure drops the prefix",
+		"dnsserver.ConfigDNS.TCPIdleTimeout <- agd.TCPConfig.IdleTimeout":                     "per-protocol structure drops the prefix",
+		"dnsserver.ConfigDNSCrypt.DNSCryptProviderName <- agd.DNSCryptConfig.ProviderName":    "per-protocol structure drops the prefix",
+		"dnsserver.ConfigDNSCrypt.DNSCryptResolverCert <- agd.DNSCryptConfig.Cert":            "per-protocol structure drops the prefix",
+		"dnsserver.ConfigHTTPS.TLSConfDefault <- agd.TLSConfig.Default":                       "the default TLS configuration",
+		"dnsserver.ConfigHTTPS.TLSConfH3 <- agd.TLSConfig.H3":                                 "the HTTP/3 TLS configuration",
+		"dnsserver.ConfigQUIC.TLSConfig <- agd.TLSConfig.Default":                             "DoQ uses the default TLS configuration",
+		"dnsserver.ConfigTLS.TLSConfig <- agd.TLSConfig.Default":                              "DoT uses the default TLS configuration",
+	}, min)
+}
